@@ -22,6 +22,9 @@ chk("C15", "C15_targets, C15_selected_files, C15_content_in_place, C15_failure_p
     "Same trusted base as C13; crash atomicity of truncate-then-write, symlink cycles and concurrent modification of the tree are not modelled (named in DESIGN.md 5.15).",
     "Coq proof over translator-regenerated effect model + vm_compute correspondence with the real CLI on generated trees", "DESIGN.md 5.15")
 
+chk("C12", "C12_ministring_closed_short/_long: for every string, both modes and both quote characters, the text MiniString passes to eval() is scanned by a reference string-literal scanner as exactly one literal (proved by induction over the string); C12_eval_sites_are_the_reviewed_ones and C12_fold_operands_are_constants: the list of eval/import/open/process call sites and the operand guard of the folding eval, re-read from the source on every run, are exactly the reviewed ones. Partial: the quote selection of f_string.Str/Bytes is not modelled in Coq; every eval during minify() is instead monitored through an audit hook and classified with CPython's tokenizer.",
+    "Trusted: Coq kernel; Model/MiniString.v transcription (tied by vm_compute correspondence with ministring.py); the reference scanner; translator/evalsites.py; sys.addaudithook monitor. Genuine defect found and fixed (non-finite complex results evaluated the names inf/nan).",
+    "Coq proof (induction over strings) + translator-extracted eval-site list + audit-hook monitored correspondence", "DESIGN.md 5.12")
 chk("C16", "C16_bytes_text_agree (for every text, the bytes-level shebang match on its UTF-8 encoding is the encoding of the text-level match), C16_first_line / C16_output (the re-attached line is exactly the first physical line, ending at the first \\n or \\r; absent when preservation is off), C16_epilogue_position, C16_utf8_output: proved for all strings over the two regular expressions and the statement list that the translator re-reads from __init__.py on every run. Partial: decoding of the source (cookies, BOM) and repr of strings are CPython's and are covered by the differential oracle over encodings x newline conventions x shebang spellings only.",
     "Trusted: Coq kernel; translator/pipeline.py (regex subset, statement classifier); Model/PipelineBase.v regex semantics (validated against re.match on every run by vm_compute cases); the specification first_line. Known finding: non-UTF-8 bytes in the shebang line (KNOWN_FINDINGS.txt).",
     "Coq proof over translator-extracted regexes/pipeline + vm_compute correspondence with _find_shebang + encoding/newline differential oracle", "DESIGN.md 5.16")
